@@ -28,6 +28,15 @@ generated structure `encode_Encoder` for `m` (the three fields that are not mode
 `…_state` theorems restate the ties as equations between whole Go states (so they also say that the model changes
 no other field).
 
+Parts: `Encoder.lean` (this file), `Encoder2.lean` (`flushDrawOps`), `Encoder3.lean` (`draw` and the 20 drawing
+methods), `Encoder4.lean` (frames, `WFEnc` is an invariant, `Bytes`), `Encoder5.lean` (whole-state forms),
+`Encoder6.lean` (`Reset`).
+
+NOT TRANSLATED, hence not tied: `(*Encoder).SetNReg`.  It encodes into `buffer(e.scratch[k:k])`, slices that alias the
+array field `e.scratch`, and reads the bytes back through `e.scratch[iBest:iBest+nBest]`; the translator refuses
+stores through a slice that aliases an array (`Index.lean`: "storing a slice that aliases an array").  Every other
+method of `Encoder` is tied.  (See the comment at the end of this file.)
+
 The well-formedness predicate `WFEnc` (needed only where the flat `drawArgs` is cut into groups again, i.e. for
 `flushDrawOps` and its callers): no verb buffered ⇒ no operands buffered; verb `op` buffered ⇒ every buffered group has
 `(opInfo op).nArgs` operands.
@@ -337,7 +346,7 @@ theorem setLOD_code_tie (m : Enc.Encoder) (l0 l1 : F32) :
 tolerant
 /-- encode.go `(*Encoder).StartPath` (reads `HighResolutionCoordinates`; writes `highResolutionCoordinates`, `buf`,
     `err`, `mode`) = `Encoder.step … (.startPath adj x y)` -/
-theorem startPath_code_tie (m : Enc.Encoder) (adj : UInt8) (x y : F32) :
+theorem encoder_startPath_code_tie (m : Enc.Encoder) (adj : UInt8) (x y : F32) :
     encode_Encoder_StartPath m.hiRes m.hiResLocal m.buf (goErr m.err) (goMode m.mode) adj x y
       = ((m.step (.startPath adj x y)).hiResLocal, (m.step (.startPath adj x y)).buf,
          goErr (m.step (.startPath adj x y)).err, goMode (m.step (.startPath adj x y)).mode) := by
